@@ -51,6 +51,9 @@ def run(c):
         kind = (h.get("tag", "").split("|") + ["", ""])[1].split("@")[0]
         if kind in ("TLOG.Remove", "PLOG.Remove", "BLOB.Remove", "REG.Remove") or kind.startswith("L2.Delete"):
             continue  # the injected failure IS the deletion: what it should have deleted stays, by construction
+        ends = [e for e in evs if e.get("ev") == "CommitEnd" and not e.get("t", "").endswith("r")]
+        if ends and ends[-1].get("ok"):
+            continue  # the fault was absorbed and the commit succeeded: not a failed transaction in the property's sense
         b = base.get(n.split("/")[0], (0, 0, 0))
         for e in evs:
             if e.get("ev") == "Audit":
